@@ -240,6 +240,27 @@ class StrConst(Contract):
         return self.world.new_node(ex, S.STR_CONSTANT, [], [to_str(v)], check=False)
 
 
+class FamilyIndex(Contract):
+    """Inside a per-width family (Pw) the integer payload accessors of BV nodes
+    are enumerated as well: the real body runs, then its result is made concrete."""
+    def __init__(self, name):
+        self.qualname = "pysmt.fnode.FNode." + name
+        self.name = name
+
+    def when(self, ex, a, kw):
+        return bool(ex.ghost.get("width_family")) and not ex.ghost.get("in_family_index")
+
+    def apply(self, ex, a, kw):
+        ex.ghost["in_family_index"] = True
+        try:
+            fi = self.world.repo.method("pysmt.fnode.FNode", self.name)
+            v = ex.run_function(self.world.wrap_func(fi, "pysmt.fnode", bound=a[0]), [], {})
+        finally:
+            ex.ghost["in_family_index"] = False
+        hi = max(ex.ghost["width_family"]) + 1
+        return BI.concretize_int(self.world, ex, v, 0, hi, "family-index-bound")
+
+
 class GetEnv(Contract):
     qualname = "pysmt.environment.get_env"
     assumed = "global environment stack: returns the single Environment of the path"
@@ -252,7 +273,9 @@ def install_core(world):
     for c in (CreateNode(), GetType("pysmt.type_checker.SimpleTypeChecker.get_type"),
               GetType("pysmt.type_checker.SimpleTypeChecker.walk"),
               GetType("pysmt.type_checker.SimpleTypeChecker::walk"),
-              FreeVars(), IsConstantNoArgs(), BvWidth(), GetEnv(), IntConst(), RealConst(), StrConst()):
+              FreeVars(), IsConstantNoArgs(), BvWidth(), GetEnv(), IntConst(), RealConst(), StrConst(),
+              FamilyIndex("bv_rotation_step"), FamilyIndex("bv_extract_start"), FamilyIndex("bv_extract_end"),
+              FamilyIndex("bv_extend_step")):
         c.world = world
         world.contracts[c.qualname] = c
 
@@ -265,6 +288,18 @@ def install_core(world):
         return KeyError
     world.config["missing_attr"] = missing_attr
     return world
+
+
+_KF = {}
+
+
+def known_entries():
+    if "k" not in _KF:
+        import json
+        import os
+        p = os.path.join(os.path.dirname(os.path.dirname(os.path.abspath(__file__))), "known_findings.json")
+        _KF["k"] = json.load(open(p)).get("known", []) if os.path.exists(p) else []
+    return _KF["k"]
 
 
 def make_world(repo):
